@@ -481,9 +481,9 @@ def run(ctx):
     mage = projlib.Mage(ctx)
     binp = go_build_harness(ctx, "unitrun")
     quick = ctx.quick
-    nproj = 10 if quick else 40
+    nproj = 8 if quick else 40
     runs_a, runs_b = (12, 4) if quick else (64, 16)
-    reps, nprocs = (40, 4) if quick else (500, 4)
+    reps, nprocs = (30, 4) if quick else (500, 4)
     nhist = 3 if quick else 16
     projects = []
     if ctx.replay and ctx.replay.get("case"):
